@@ -34,6 +34,8 @@ def units(tier, seed):
         for part in split_list(_g.sparse_codes(5, 4, (1, 2)), 32):
             out.append({"stage": "grid", "p": 5, "codes": part})
     out.append({"stage": "seed-range"})
+    for p in (6, 7, 8, 10, 12, 13):
+        out.append({"stage": "paths", "p": p})
     return out
 
 
@@ -76,7 +78,10 @@ def judge(fn, p, A0, k, result, d):
 
 def one_call(fn, p, code, lab, k, seed_kw, answers=None):
     ch, _ = G.decode(p, code)
-    A = _g.np_dag(p, ch, lab)
+    if lab == "fortran":          # same 0/1 graph in column-major memory order (what B.T or np.asfortranarray gives)
+        A = np.asfortranarray(_g.np_dag(p, ch, "binint"))
+    else:
+        A = _g.np_dag(p, ch, lab)
     before = A.copy()
     A0 = G.pattern(A.tolist())
     f = U.remove_edges if fn == "remove" else U.add_edges
@@ -106,7 +111,7 @@ def run_grid(unit, acc):
         ch, und = G.decode(p, code)
         if any(und) or not G.is_acyclic(p, ch):
             continue
-        for lab in ("binint", "generic"):
+        for lab in ("binint", "generic", "fortran"):
             for fn in ("remove", "add"):
                 for k in range(0, max_count(fn, p, code) + 2):
                     for s in (None, 0, 1, _SEED[0]):
@@ -211,8 +216,47 @@ def run_seed_range(acc, nseeds=300):
         acc.fail("seed-range", {"k": "add"}, "add-not-random", "add_edges(3-edge DAG + isolated node, 1): over random_state 0..%d only %d of the 6 possible additions occur" % (nseeds - 1, len(seen)))
 
 
+def path_dags(p):
+    """DAGs whose skeleton is the path 0-1-...-(p-1): every orientation for p <= 8, a fixed family beyond."""
+    if p <= 8:
+        masks = range(1 << (p - 1))
+    else:
+        masks = [0, (1 << (p - 1)) - 1, 0b1010101010101 & ((1 << (p - 1)) - 1), 0b0011001100110 & ((1 << (p - 1)) - 1), 1 << (p // 2)]
+    for m in masks:
+        A = np.zeros((p, p), dtype=int)
+        for i in range(p - 1):
+            if m >> i & 1:
+                A[i + 1, i] = 1
+            else:
+                A[i, i + 1] = 1
+        yield m, A
+
+
+def run_paths(unit, acc):
+    p = unit["p"]
+    for m, A in path_dags(p):
+        A0 = G.pattern(A.tolist())
+        mx = p * (p - 1) // 2 - (p - 1)
+        for k in (1, 2, mx):
+            for s in (0, 1, 2, 3):
+                r = _g.call(U.add_edges, A.copy(), k, random_state=s)
+                acc.states += 1
+                acc.traces += 1
+                acc.transitions += 1
+                acc.nontrivial += 1
+                acc.extra["path_dag_calls"] += 1
+                for sig, msg in judge("add", p, A0, k, r, "add_edges(path DAG %s on %d nodes, %d, random_state=%d)" % (bin(m), p, k, s)):
+                    acc.fail("paths", {"p": p, "m": m, "k": k, "seed": s}, sig, msg)
+        r = _g.call(U.remove_edges, A.copy(), p - 1, random_state=0)
+        for sig, msg in judge("remove", p, A0, p - 1, r, "remove_edges(path DAG on %d nodes, %d)" % (p, p - 1)):
+            acc.fail("paths", {"p": p, "m": m, "k": -1, "seed": 0}, sig, msg)
+
+
 def run_unit(unit):
     acc = Acc()
+    if unit["stage"] == "paths":
+        run_paths(unit, acc)
+        return acc.out()
     if unit["stage"] == "seed-range":
         run_seed_range(acc)
         return acc.out()
@@ -231,6 +275,10 @@ def replay(kind, case):
             if r2[0] != "ok" or not np.array_equal(r[1], r2[1]):
                 fails.append(("not-deterministic", "differs between two identical calls"))
         return fails
+    if kind == "paths":
+        acc = Acc(keep_failures=50)
+        run_paths({"p": case["p"]}, acc)
+        return [(f["sig"], f["msg"]) for f in acc.failures if f["case"]["m"] == case["m"] and f["case"]["k"] == case["k"] and f["case"]["seed"] == case["seed"]]
     if kind == "seed-range":
         acc = Acc(keep_failures=20)
         run_seed_range(acc)
@@ -245,10 +293,10 @@ def replay(kind, case):
 def describe(tier, seed):
     return {
         "technique": "exhaustive small-scope enumeration of (DAG, count, seed) on the real code; RNG outcomes by exhaustive enumeration of harness-owned answers (stateless DFS)",
-        "rule": "add_edges and remove_edges on every labelled DAG p<=4 (binary int and weighted float; thorough: + 5-node DAGs with <=4 edges) x every count from 0 to one past "
+        "rule": "add_edges and remove_edges on every labelled DAG p<=4 (binary int, weighted float and Fortran-ordered; thorough: + 5-node DAGs with <=4 edges) x every count from 0 to one past "
                 "the feasible maximum x seeds {default, 0, 1, VERIF_SEED}, each seeded call twice; under the owned RNG every shuffle / choice answer for every DAG and "
                 "count at p<=3 (complete), and all sequences with <=2 non-default answers for every %dth 4-node DAG with counts {1, max}; oracle: sub/supergraph with exactly "
-                "k edges fewer/more, acyclic, no 2-cycle, no self-loop (own detector), ValueError iff infeasible, input untouched, every k-subset removable. non-trivial: 0 < k <= max" % (
+                "k edges fewer/more, acyclic, no 2-cycle, no self-loop (own detector), ValueError iff infeasible, input untouched, every k-subset removable; every orientation of the path skeleton on 6..8 nodes (a family on 10, 12, 13) with counts {1, 2, max} x 4 seeds. non-trivial: 0 < k <= max" % (
                     8 if tier == "quick" else 2),
         "exhaustive": True,
         "bounds": {"p_exhaustive_real_rng": 4, "p_exhaustive_answers": 3, "p4_answer_deviation": 2},
